@@ -58,6 +58,16 @@ theorem run_config_current (c : Cfg) (h : List Act) (s : Nat) :
     (exec c (h ++ [.setSeed s, .run])).cfgs.getLast? = fresh.cfgs.getLast? := by
   first | (apply Snow.SeedsLemmas.run_config_current <;> assumption)
 
+/-- **run_outcome_some**: the `getLast?` statements above are about a run that exists:
+a history that ends with `seed = s; run` has a last schedule, and it is the canonical
+one of `s` and of the shape, vial seed and configuration then in force. -/
+theorem run_outcome_some (c : Cfg) (h : List Act) (s : Nat) :
+    (exec c (h ++ [.setSeed s, .run])).scheds ≠ [] ∧
+    (exec c (h ++ [.setSeed s, .run])).scheds.getLast? = some (canon c s (nvAfter ⟨7, 7, 1⟩ h)) ∧
+    (exec c (h ++ [.setSeed s, .run])).xis.getLast? = some (seedVAfter 2024 h, (nvAfter ⟨7, 7, 1⟩ h).total) ∧
+    (exec c (h ++ [.setSeed s, .run])).cfgs.getLast? = some (cfgAfter 0 h) := by
+  first | (apply Snow.SeedsLemmas.run_outcome_some <;> assumption)
+
 /-- … and a plain re-run (no re-seeding) when the object's seed already is `s`. -/
 theorem run_schedule_canonical_same_seed (c : Cfg) (h : List Act) (s : Nat)
     (hs : seedAfter 2021 h = s) :
@@ -65,12 +75,34 @@ theorem run_schedule_canonical_same_seed (c : Cfg) (h : List Act) (s : Nat)
       (exec c [.new s (nvAfter ⟨7, 7, 1⟩ h), .run]).scheds.getLast? := by
   first | (apply Snow.SeedsLemmas.run_schedule_canonical_same_seed <;> assumption)
 
-/-- **record_independent**: the whole trace of a history — generator events, draw
-schedules and final object state — is the same for every deterministic storage
-selection `m`. -/
-theorem record_independent (c : Cfg) (m : List Nat) (h : List Act) :
-    exec { c with mask := m } h = exec c h := by
+/-- **record_independent**: for deterministic storage selections `l`, `l'` the whole
+history — final object, generator events, draw schedules, vial deviates and
+configurations read — is the same; only the mask each run reads when it writes the
+state matrix differs.  (In the model no transition reads a deterministic mask — that
+is its shape; that the CODE behaves so is what the correspondence check establishes:
+bit-identical statistics across storeStates variants, also with an event in the final
+time step.) -/
+theorem record_independent (c : Cfg) (l l' : List Nat) (h : List Act) :
+    core (exec { c with mask := .det l } h) = core (exec { c with mask := .det l' } h) := by
   first | (apply Snow.SeedsLemmas.record_independent <;> assumption)
+
+/-- **random_mask_run_canonical**: a `random` storage selection DOES consume draws —
+at construction, on the generator of that moment (`mkNew` appends a `choice` call) —
+yet every run, after any history, uses the canonical schedule of its seed: `run()`
+restarts the generator, so the run's draws are independent of the selection draw. -/
+theorem random_mask_run_canonical (sigmaPos : Bool) (n : Nat) (h : List Act) (s : Nat) :
+    (exec { sigmaPos := sigmaPos, mask := .random n } (h ++ [.setSeed s, .run])).scheds.getLast? =
+      some (canon { sigmaPos := sigmaPos, mask := .det [] } s (nvAfter ⟨7, 7, 1⟩ h)) ∧
+    (mkNew { sigmaPos := sigmaPos, mask := .random n } s ⟨3, 3, 1⟩).2 =
+      (mkNew { sigmaPos := sigmaPos, mask := .det [] } s ⟨3, 3, 1⟩).2 ++ [.call (.choice n)] := by
+  first | (apply Snow.SeedsLemmas.random_mask_run_canonical <;> assumption)
+
+/-- before the repair a `random` storage selection shifted the dice of the first run
+(the selection draw sits between the shelf draws and the dice) -/
+theorem old_random_mask_shifts_dice :
+    (execOld { sigmaPos := false, mask := .random 2 } [.new 5 ⟨3, 3, 1⟩, .run]).scheds ≠
+    (execOld { sigmaPos := false, mask := .det [] } [.new 5 ⟨3, 3, 1⟩, .run]).scheds := by
+  first | (apply Snow.SeedsLemmas.old_random_mask_shifts_dice <;> assumption)
 
 /-- **snowfall_mode_independent**: for every template state (so also for a
 Snowfall that is run again), every repetition count and EVERY assignment of the
